@@ -498,6 +498,14 @@ def map_key_class(prog, fn, op, depth=0, pending=None, is_closure_elem=None):
         return _elem_projection(t.get('dty', ''), pending, param=False)
     if name in INJECTIVE_STEPS and (callee(t) not in prog.fns or cs.endswith(' as Clone>::clone')) and t['args']:
         return map_key_class(prog, fn, t['args'][0], depth + 1, [pe for pe in pending if pe['k'] == 'deref'] if False else pending)
+    if name in ('and_then', 'map', 'map_or', 'map_or_else', 'then', 'filter_map', 'find_map') and depth < 20:
+        # Option / iterator combinator: the key is what the closure returns
+        for cp in (t['f'].get('closures') or []):
+            cf = prog.fns.get(cp)
+            if cf is not None:
+                inner = map_key_class(prog, cf, {'k': 'copy', 'pl': {'l': 0}}, depth + 1, [pe for pe in pending if pe['k'] != 'deref'][:0])
+                if inner.startswith('derived:via '):
+                    return inner
     return 'derived:via ' + cs
 
 
